@@ -31,8 +31,20 @@ def gen_case(rng, reentrant, maxops):
     scripts = []
     if reentrant:
         nscr = rng.range(1, 4)
+        shaped = rng.chance(1, 3)     # at most one such script per case: every observer running it notifies again (nesting multiplies)
         for _ in range(nscr):
-            acts = [gen_action(rng, nsubj, 6, nscr, True) for _ in range(rng.weighted([(0, 1), (1, 4), (2, 3), (3, 1)]))]
+            if shaped:
+                shaped = False
+                # shapes in which something changes and the same Subject is notified again before the outer round goes on
+                subj = rng.below(nsubj)
+                first = rng.choice([[1, rng.below(6)], [5], [0, subj, rng.below(nscr + 1)], [2, rng.below(6)], [4, rng.below(6)]])
+                acts = [first, [6, subj, rng.range(1, 99)]] + ([[3, rng.below(6)]] if rng.chance(1, 4) else [])
+                if first != [5] and rng.chance(2, 3):
+                    # the observer takes itself out first, so that the nested round does not run this script again (a script
+                    # that notifies unconditionally nests until the fuel runs out and the case ends there)
+                    acts = [[5]] + acts
+            else:
+                acts = [gen_action(rng, nsubj, 6, nscr, True) for _ in range(rng.weighted([(0, 1), (1, 4), (2, 3), (3, 1)]))]
             line = []
             for a in acts:
                 line += [len(a)] + a
